@@ -14,8 +14,8 @@ class C19(core.Check):
     pid = 'C19'
     title = 'feature mixup'
     driver = 'drv_c19'
-    quick_cases = 1200
-    thorough_cases = 20000
+    quick_cases = 6000
+    thorough_cases = 60000
     rule = ('seeded calls of the real feature_mixup (75%) and of ExcelFormer.forward(mixup_encoded=True) (25%, one '
             'ExcelFormerConv layer, real encoder): B 0-6, F 1-5, D 1-4 (forward: 2-4), num_classes 1-4, mode '
             'None/feature/hidden, beta in {0.1,0.5,1,2,5}, float32 and float64, dyadic feature values with '
